@@ -37,4 +37,28 @@ MonthOk == \A k \in {-13, -1, 1, 12, 25} : LET r == AddMonths(t[1], t[2], t[3], 
 NthOk == LET wd == Weekday(n)  k == (t[3] - 1) \div 7 + 1 IN
             /\ NthWeekdayOfMonth(t[1], t[2], k, wd) = t[3]
             /\ (t[3] + 7 > DaysInMonth(t[1], t[2]) => LastWeekdayOfMonth(t[1], t[2], wd) = t[3])
+\* why C19 asks for "each computed from the start": stepping month by month can only LOSE days to
+\* clamping (never gain, never change the month reached), and loses nothing below day 29
+DriftOk == \A a \in {-13, -1, 1, 2, 11} : \A b \in {-1, 1, 12} :
+             LET s == AddMonths(t[1], t[2], t[3], a)
+                 acc == AddMonths(s[1], s[2], s[3], b)
+                 dir == AddMonths(t[1], t[2], t[3], a + b)
+             IN /\ acc[1] = dir[1] /\ acc[2] = dir[2] /\ acc[3] <= dir[3]
+                /\ (t[3] <= 28 => acc = dir)
+\* clamped month arithmetic is weakly monotone: the next day never lands before this day
+MonthMono == \A k \in {-13, -1, 1, 12, 25} :
+               LET r == AddMonths(t[1], t[2], t[3], k)
+                   u == NextYMD(t)
+                   r2 == AddMonths(u[1], u[2], u[3], k)
+               IN Ord(r[1], r[2], r[3]) <= Ord(r2[1], r2[2], r2[3])
+\* the POSIX TZ rule Mm.w.d (Zones' synthetic rules) is the n-th / last weekday of the month
+PosixOk == t[3] = 1 => \A w \in 1..5 : \A wd0 \in 0..6 :
+             LET iso == IF wd0 = 0 THEN 7 ELSE wd0
+                 k == NthWeekdayOfMonth(t[1], t[2], w, iso)
+             IN NthWd(t[1], t[2], w, wd0) = n - 1 + (IF k # 0 THEN k ELSE LastWeekdayOfMonth(t[1], t[2], iso))
+\* year length, day of year and quarter
+YearOk == /\ DayOfYear(t[1], t[2], t[3]) \in 1..DaysInYear(t[1])
+          /\ n = Ord(t[1], 1, 1) + DayOfYear(t[1], t[2], t[3]) - 1
+          /\ Ord(t[1] + 1, 1, 1) - Ord(t[1], 1, 1) = DaysInYear(t[1])
+          /\ LET q == Quarter(t[2]) IN q \in 1..4 /\ 3 * q - 2 <= t[2] /\ t[2] <= 3 * q
 =============================================================================
